@@ -233,8 +233,7 @@ func runC04(c *Ctx) {
 	c04KeptClient(c)
 	// ---- E1b the stock hook signals failure only with an error in hand, and continuation only without one: the last
 	// FailSync call wins, so an unconditional FailSync(err) lets a later successful block erase an earlier failure
-	if mk := c.Func(dagsyncPkg, "MakeGeneralBlockHook"); mk != nil && len(mk.SSA.AnonFuncs) == 1 {
-		hook := mk.SSA.AnonFuncs[0]
+	if mk, hook := c.Func(dagsyncPkg, "MakeGeneralBlockHook"), stockHook(c); mk != nil && hook != nil {
 		for _, cs := range c.Calls(hook, Invoke("SegmentSyncActions.FailSync")) {
 			okF := false
 			if len(cs.X.Args) == 2 {
